@@ -592,3 +592,82 @@ def waiting_assembly_specs():
         teams = [{"name": "TM0", "targets": [0, 1, 2, 3, 4], "workers": [{"name": "W%d" % i, "skills": dict(sk), "fskills": dict(fsk)} for i in range(5)]}]
         out.append({"tasks": tasks, "links": [[0, 2, "FS"], [1, 2, "FS"]], "components": comps, "workplaces": wps, "teams": teams, "label": "waiting-assembly:%s:%s" % (d_work, hall_cap)})
     return out
+
+
+# ------------------------------------------------------------------------------------------------
+# families added after the seventh round of seeded changes
+# ------------------------------------------------------------------------------------------------
+def sequential_facility_specs():
+    """one component with two sequential facility tasks; the workplace of the first task is also assigned to the second task but has no
+    facility for it (and more free space, so it sorts first under the default rule); the second task's real workplace is elsewhere"""
+    out = []
+    for cap0, cap1 in ((3.0, 1.0), (1.0, 3.0), (2.0, 2.0)):
+        for wprule in ("FSS", "SSP"):
+            tasks = [{"name": "T0", "work": 2.0, "nf": True, "wprule": wprule}, {"name": "T1", "work": 2.0, "nf": True, "wprule": wprule}, {"name": "T2", "work": 1.0}]
+            wps = [{"name": "WP0", "cap": cap0, "targets": [0, 1], "facilities": [{"name": "F0", "skills": {"T0": 1.0}, "cost": 1.0}]},
+                   {"name": "WP1", "cap": cap1, "targets": [1], "facilities": [{"name": "F1", "skills": {"T1": 1.0}, "cost": 2.0}]}]
+            teams = [{"name": "TM0", "targets": [0, 1, 2], "workers": [{"name": "W0", "skills": {"T0": 1.0, "T1": 1.0, "T2": 1.0}, "fskills": {"F0": 1.0, "F1": 1.0}, "cost": 1.0}]}]
+            out.append({"tasks": tasks, "links": [[0, 1, "FS"], [1, 2, "FS"]], "components": [{"name": "C0", "tasks": [0, 1]}], "workplaces": wps, "teams": teams,
+                        "label": "sequential-facility:%s:%s:%s" % (cap0, cap1, wprule)})
+    return out
+
+
+def ff_held_component_specs():
+    """a component whose first facility task (in workplace A) has run out of work but is held WORKING by an FF/SF link to a longer task of
+    another component, while its second task (SS-linked, workplace B) is already READY"""
+    out = []
+    for hold in ("FF", "SF"):
+        for nf1 in (True, False):
+            tasks = [{"name": "T0", "work": 2.0, "nf": True}, {"name": "T1", "work": 2.0, "nf": nf1}, {"name": "T2", "work": 6.0, "nf": True}]
+            links = [[2, 0, hold], [0, 1, "SS"]]
+            comps = [{"name": "C0", "tasks": [0, 1]}, {"name": "C1", "tasks": [2]}]
+            wps = [{"name": "WPA", "cap": 1.0, "targets": [0], "facilities": [{"name": "FA", "skills": {"T0": 1.0}, "cost": 1.0}]},
+                   {"name": "WPB", "cap": 1.0, "targets": [1], "facilities": [{"name": "FB", "skills": {"T1": 1.0}, "cost": 1.0}], "inputs": [0]},
+                   {"name": "WPC", "cap": 1.0, "targets": [2], "facilities": [{"name": "FC", "skills": {"T2": 1.0}, "cost": 1.0}]}]
+            fsk = {"FA": 1.0, "FB": 1.0, "FC": 1.0}
+            teams = [{"name": "TM0", "targets": [0, 1, 2], "workers": [{"name": "W%d" % i, "skills": {"T0": 1.0, "T1": 1.0, "T2": 1.0}, "fskills": dict(fsk), "cost": 1.0} for i in range(3)]}]
+            # T2 must not be started late: it is declared before T0 so that the FF/SF predecessor is the longer one
+            out.append({"tasks": tasks, "links": links, "components": comps, "workplaces": wps, "teams": teams, "label": "ff-held-component:%s:%s" % (hold, nf1)})
+    return out
+
+
+def late_placement_specs():
+    """a component whose first task needs no workplace (workers only) and whose second, facility task becomes READY (SS) while the first is
+    still WORKING; another component occupies the only workplace at first"""
+    out = []
+    for w0 in (5.0, 3.0):
+        tasks = [{"name": "T0", "work": w0}, {"name": "T1", "work": 2.0, "nf": True}, {"name": "T2", "work": 1.0, "auto": True}, {"name": "T3", "work": 2.0, "nf": True}, {"name": "T4", "work": 1.0}]
+        links = [[0, 1, "SS"], [1, 2, "FS"], [3, 4, "FS"]]
+        comps = [{"name": "HULL", "tasks": [0, 1, 2]}, {"name": "TOOL", "tasks": [3, 4]}]
+        wps = [{"name": "WPA", "cap": 1.0, "targets": [1, 2, 3], "facilities": [{"name": "FA", "skills": {"T1": 1.0, "T2": 1.0, "T3": 1.0}, "cost": 1.0}]}]
+        sk = {"T0": 1.0, "T1": 1.0, "T3": 1.0, "T4": 1.0}
+        teams = [{"name": "TM0", "targets": [0, 1, 3, 4], "workers": [{"name": "W%d" % i, "skills": dict(sk), "fskills": {"FA": 1.0}, "cost": 1.0} for i in range(3)]}]
+        out.append({"tasks": tasks, "links": links, "components": comps, "workplaces": wps, "teams": teams, "label": "late-placement:%s" % w0})
+    return out
+
+
+def five_task_join_specs():
+    """a tail task with two inputs of different kinds reached in the same layer, plus an independent two-task chain, fewer workers than READY tasks"""
+    out = []
+    for k1, k2 in (("FF", "SS"), ("SS", "FF"), ("SF", "SS"), ("FF", "SF"), ("FS", "FF")):
+        for wv in ((3, 2, 2, 2, 1), (2, 3, 1, 1, 3)):
+            tasks = [{"name": tname(i), "work": float(w)} for i, w in enumerate(wv)]
+            links = [[0, 2, k1], [1, 2, k2], [3, 4, "FS"]]
+            for lay in ("POOL1", "POOL2"):
+                sp = with_teams({"tasks": tasks, "links": links}, lay)
+                sp["label"] = "five-task-join:%s+%s:%s:%s" % (k1, k2, wv, lay)
+                out.append(sp)
+    return out
+
+
+def second_workflow_specs():
+    """two independent sub-networks in one project; the task objects of the second one were also put into a BaseWorkflow of their own"""
+    out = []
+    for k in ("FS", "SS", "FF", "SF"):
+        tasks = [{"name": tname(i), "work": float(w)} for i, w in enumerate((2, 1, 2, 1))]
+        links = [[0, 1, "FS"], [2, 3, k]]
+        sp = with_teams({"tasks": tasks, "links": links}, "POOL2")
+        sp["second_workflow"] = [2, 3]
+        sp["label"] = "second-workflow:%s" % k
+        out.append(sp)
+    return out
